@@ -5,7 +5,7 @@ from ..core import HEADER, CASE_TYPE, CHECK, MODEL_VIEW, SHARD, CASE_TIMEOUT, ob
 
 ID = "C05"
 THEOREMS = ["C05_encode", "C05_reject_range", "C05_reject_target_ram", "C05_reject_source_ram",
-            "C05_reject_unmapped", "C05_length"]
+            "C05_reject_unmapped", "C05_length", "C05_in_step"]
 RULE = ("every branch mnemonic of the live table x every displacement -300..+300 (thorough) / a boundary-dense subset "
         "(quick) x forward/backward x placement (window start, middle, last bytes of the window) x {no relocation, "
         "@= to ROM, @= to RAM} x LoROM/HiROM; non-trivial: the branch is accepted and encoded; distinct by source")
